@@ -765,6 +765,57 @@ def hkdf_expand(chk):
     chk.floor('hkdf blocks', n, 9)
 
 
+def state_save_restore(chk):
+    """"A saved state restored into a fresh context continues identically": state() serialises the chaining value with
+    br_range_encNN(dst + o, cc->field, n) and set_state() reads it back with br_range_decNN(cc->field, n, src + o).  For every hash the
+    two functions must cover the same (field, word count, buffer offset, endianness and word width) triples, and n words must be the
+    whole field.  Structural rule over the six state-saving hash implementations."""
+    R = 'hash-state-save-restore-symmetric'
+    n = 0
+    for src, names, st in (('src/hash/md5.c', ['br_md5'], 'br_md5_context'), ('src/hash/sha1.c', ['br_sha1'], 'br_sha1_context'),
+                           ('src/hash/sha2small.c', ['br_sha224'], 'br_sha224_context'), ('src/hash/sha2big.c', ['br_sha384'], 'br_sha384_context'),
+                           ('src/hash/md5sha1.c', ['br_md5sha1'], 'br_md5sha1_context')):
+        u = build.load_unit(src)
+        L = irf.Layouts(u)
+        for nm in names:
+            sets = {}
+            for kind, fn in (('save', nm + '_state'), ('restore', nm + '_set_state')):
+                F = next((irf.Func(u, f) for f in u['functions'] if f['name'] == fn and f.get('blocks')), None)
+                if F is None:
+                    raise AnalysisBroken('%s vanished from %s' % (fn, src))
+                items = set()
+                for c in F.calls():
+                    cal = c.get('callee') or ''
+                    if not cal.startswith('br_range_'):
+                        continue
+                    enc = 'enc' in cal
+                    if enc != (kind == 'save'):
+                        items.add(('wrong direction', cal))
+                        continue
+                    fld, cnt, buf = (c['ops'][1], c['ops'][2], c['ops'][0]) if enc else (c['ops'][0], c['ops'][1], c['ops'][2])
+                    fb, fo = F.addr_of(fld)
+                    bb, bo = F.addr_of(buf)
+                    fa = L.field_at(st, fo) if fb == {'k': 'a', 'v': 0} and fo is not None else None
+                    items.add((fa[2] if fa else '?', cnt.get('v') if cnt['k'] == 'c' else '?', bo, cal.replace('enc', 'XXX').replace('dec', 'XXX'),
+                               fa[1] if fa else None))
+                sets[kind] = items
+            n += 1
+            inst = '%s: state() and set_state() cover the same fields, word counts and offsets, and each covers its field entirely' % nm
+            bad = []
+            if sets['save'] != sets['restore'] or not sets['save']:
+                bad.append('save %s vs restore %s' % (sorted(sets['save'], key=repr), sorted(sets['restore'], key=repr)))
+            for it in sets['save'] | sets['restore']:
+                if len(it) == 5 and isinstance(it[1], int) and it[4] is not None:
+                    wsz = 8 if '64' in it[3] else 4
+                    if it[1] * wsz != it[4]:
+                        bad.append('%d words of %d bytes do not cover the %d-byte field %s' % (it[1], wsz, it[4], it[0]))
+            if bad:
+                chk.violation(R, inst, src, '; '.join(bad) + ': part of the chaining value is not restored, the continued hash differs', key='%s %s' % (R, nm))
+            else:
+                chk.ok(R, inst, src)
+    chk.floor('state-saving hashes', n, 5)
+
+
 def run(tier):
     chk = report.Check('C13', tier,
                        'Constant tables and class descriptors of the hash functions compared with values generated from the standards '
@@ -912,6 +963,7 @@ def run(tier):
     aesctr_drbg_chunking(chk)
     shake_rules(chk)
     hkdf_expand(chk)
+    state_save_restore(chk)
     chk.floor('tables', sum(1 for o in chk.obls if o['rule'] == 'hash-constants'), 15)
     from .. import lints
     lints.length_is_boolean(chk, ['src/hash/', 'src/mac/', 'src/kdf/', 'src/rand/'])
